@@ -14,7 +14,7 @@
 (***************************************************************************)
 EXTENDS Trunc
 
-T1(c, ln) == [c |-> c, ln |-> ln, f |-> "one", t |-> 0]
+T1(c, ln) == Term(c, ln, "one", 0)
 VConst(c) == <<T1(c, LNZero)>>
 VPlus(v, w) == v \o w
 VScaleF(c, v) == [k \in 1..Len(v) |-> [v[k] EXCEPT !.c = FMul(c, v[k].c)]]
@@ -131,4 +131,45 @@ HetCovY(c, p, r, sh) ==
     IN MkSeq(HDy(c), LAMBDA a : MkSeq(HDy(c), LAMBDA b :
           VPlus(VConst(base[a][b]), ValSumTo([i \in 1..HDk(c) |-> VScaleF(FMul(c.A[a][i], c.A[b][i]), E(i))], HDk(c)))))
 HetCovYX(c, p, r) == MatMul(c.M[1], Truth(p, r).Sig)
+
+(***************************************************************************)
+(* C17, step link: E_{p(x)}[ ln N(y; M x + b, Sigma(x)) ] with             *)
+(* Sigma(x) = A A' + sum_i a_i a_i' 1[h_i(x) >= 0], for SQUARE A (Da = Dy),*)
+(* where A_k' (AA')^-1 A_k = I and therefore                               *)
+(*   Lambda(x) = L0 - sum_i 1/2 1[h_i >= 0] L0 a_i a_i' L0,                *)
+(*   ln det Sigma(x) = ln det Sigma0 + ln 2 * sum_i 1[h_i >= 0].           *)
+(* With g_i = a_i' L0 (y - M x - b) and h_i jointly Gaussian under p(x):   *)
+(*   E[g^2 ; h >= 0] = (v + e0^2) H0 + 2 beta e0 H1 + beta^2 H2,           *)
+(*   beta = cov(g,h)/var(h), e0 = E g - beta E h, v = var(g) - beta cov,   *)
+(*   H_k = int_0^inf h^k N(h; mh, sh^2) dh  (truncated raw moments).       *)
+(***************************************************************************)
+StepIntLogCondY(c, p, r, y, sh) ==
+    LET T == Truth(p, r)
+        L0 == Inv(HSigma0(c))
+        d0 == Det(HSigma0(c))
+        res == VSub(y, VAdd(MatVec(c.M[1], T.mu), c.b[1]))                \* y - M m - b
+        quad0 == FAdd(Trace(MatMul(L0, MatMulT(MatMul(c.M[1], T.Sig), c.M[1]))), Quad(res, L0, res))
+        unit(i) ==
+            LET a == HAk(c, i)
+                La == MatVec(L0, a)
+                cv == VecMat(La, c.M[1])                                  \* M' L0 a_i   (g = c0 - cv'x)
+                mg == Dot(La, res)
+                w == HW(c, i)
+                mh == FAdd(Dot(w, T.mu), HW0(c, i))
+                vh == FMul(sh[i], sh[i])
+                cov == FNeg(Quad(cv, T.Sig, w))
+                vg == Quad(cv, T.Sig, cv)
+                beta == FDiv(cov, vh)
+                e0 == FSub(mg, FMul(beta, mh))
+                v == FSub(vg, FMul(beta, cov))
+                al == FDiv(FNeg(mh), sh[i])
+                H(k, coef) == TruncMomentVal(k, LNZero, mh, sh[i], FALSE, al, TRUE, 0)
+                sc(coef, val) == [k \in 1..Len(val) |-> [val[k] EXCEPT !.c = FMul(coef, val[k].c)]]
+                h0 == H(0, 1)
+            IN \* + 1/4 E[g^2; h >= 0]  - 1/2 ln 2 * P(h >= 0)
+               sc(FMul(FQ(1, 4), FAdd(v, FMul(e0, e0))), h0) \o sc(FMul(FQ(1, 2), FMul(beta, e0)), H(1, 1))
+                 \o sc(FMul(FQ(1, 4), FMul(beta, beta)), H(2, 1))
+                 \o [k \in 1..Len(h0) |-> TermM(FMul(FQ(-1, 2), h0[k].c), h0[k].ln, h0[k].f, h0[k].t, LNLn(2))]
+    IN <<T1(FNeg(FHalfOf(quad0)), LNZero), TermM(FQ(-1, 2), LNZero, "one", 0, LN(0, 2 * HDy(c), FMul(d0, d0)))>>
+         \o ValSumTo([i \in 1..HDk(c) |-> unit(i)], HDk(c))
 =============================================================================
